@@ -19,6 +19,7 @@ package writer
 
 import (
 	"bytes"
+	"errors"
 	"fmt"
 	"math"
 	"os"
@@ -48,6 +49,9 @@ import (
 
 // Throttle the number of indexes to help prevent excessive memory usage.
 const maxAllowedSegStores = 1000
+
+// returned by SegStore.AddEntry when removeStaleSegments has removed the segstore from allSegStores
+var errSegStoreRemoved = errors.New("segstore was removed from allSegStores")
 
 // global map
 var (
@@ -324,14 +328,21 @@ func AddEntryToInMemBuf(streamid string, indexName string, flush bool,
 	signalType SIGNAL_TYPE, orgid int64, rid uint64, cnameCacheByteHashToStr map[uint64]string,
 	jsParsingStackbuf []byte, pleArray []*ParsedLogEvent,
 ) error {
-	segstore, err := getOrCreateSegStore(streamid, indexName, orgid)
-	if err != nil {
-		log.Errorf("AddEntryToInMemBuf, getSegstore err=%v", err)
-		return err
-	}
+	for {
+		segstore, err := getOrCreateSegStore(streamid, indexName, orgid)
+		if err != nil {
+			log.Errorf("AddEntryToInMemBuf, getSegstore err=%v", err)
+			return err
+		}
 
-	return segstore.AddEntry(streamid, indexName, flush, signalType, orgid, rid,
-		cnameCacheByteHashToStr, jsParsingStackbuf, pleArray)
+		err = segstore.AddEntry(streamid, indexName, flush, signalType, orgid, rid,
+			cnameCacheByteHashToStr, jsParsingStackbuf, pleArray)
+		if err != errSegStoreRemoved {
+			return err
+		}
+		// removeStaleSegments took this segstore out of allSegStores after we got it: nothing
+		// was added to it, get (or create) the current segstore of the stream
+	}
 }
 
 func (ss *SegStore) doLogEventFilling(ple *ParsedLogEvent, tsKey *string) (bool, error) {
@@ -459,6 +470,10 @@ func (segstore *SegStore) AddEntry(streamid string, indexName string, flush bool
 
 	segstore.Lock.Lock()
 	defer segstore.Lock.Unlock()
+
+	if segstore.removed {
+		return errSegStoreRemoved
+	}
 
 	for _, ple := range pleArray {
 
@@ -608,11 +623,15 @@ func removeStaleSegments() {
 		if !ok {
 			continue
 		}
-		// Check again here to make sure we are not deleting a segstore that was updated
+		// Check again here to make sure we are not deleting a segstore that was updated. An ingest
+		// request may already hold this segstore: under the segstore lock, tell it that the segstore is gone
+		segstore.Lock.Lock()
 		if segstore.isSegstoreUnusedSinceTime(STALE_SEGMENT_DELETION_SECONDS * time.Second) {
 			log.Infof("Deleting unused segstore for segkey: %v", segstore.SegmentKey)
+			segstore.removed = true
 			delete(allSegStores, streamid)
 		}
+		segstore.Lock.Unlock()
 	}
 	allSegStoresLock.Unlock()
 }
